@@ -30,11 +30,11 @@
 Require Import Verif.Model.Base Verif.Model.Decision Verif.Model.Level Verif.Model.Mode Verif.Model.DecisionRef.
 
 (* D1: logsloglevel2Level's default (Fatal -> the standard level below) *)
-Definition fix_log_default : bool := false.
+Definition fix_log_default : bool := true.
 (* D2: handlerWriter.Write's admission test (s.lvl >= s.l.Level() -> s.l.Enabled(s.lvl)) *)
-Definition fix_bridge : bool := false.
+Definition fix_bridge : bool := true.
 (* D3: handler4LogSlog.WithAttrs/WithGroup (a detached New() logger -> the same logger plus what was given) *)
-Definition fix_derived : bool := false.
+Definition fix_derived : bool := true.
 
 (* ---------------------------------------------------------------- levels *)
 Definition slog_debug : Z := -4.  Definition slog_info : Z := 0.
